@@ -29,6 +29,7 @@ def extended_config(rng, project, rich=True):
     if C is None:
         return None
     C['replicate'] = rich and rng.random() < 0.3
+    C['lib'] = rng.choice(['', '', 'phys']) if rich else ''        # [default] lib ('' = none): every item belongs to it
     names = [p['name'] for p in project['procs']]
     keyed = {r['key'] for r in C['routines']}
     if rich:
@@ -47,8 +48,39 @@ def extended_config(rng, project, rich=True):
     return C
 
 
+def mixed_replicate_config(rng, project, first_replicated):
+    """Configuration aimed at the file-level replicate rule: two procedures of ONE file that are both in the graph (the first
+    calls the second) get different `replicate` flags -- `first_replicated` selects which one -- while a library is
+    configured (in [default] or on the routine entries), so that the per-library plan lists are exercised as well."""
+    C = C23.simple_config(rng, project, False)
+    if C is None:
+        return None
+    names = [p['name'] for p in project['procs']]
+    pairs = [(a, b) for a in project['procs'] for b in project['procs']
+             if a is not b and a['file'] == b['file'] and b['name'] in a['calls'] and names.count(a['name']) == 1 and names.count(b['name']) == 1]
+    if not pairs:
+        return None
+    a, b = rng.choice(pairs)
+    C['replicate'] = False
+    C['lib'] = rng.choice(['phys', 'phys', ''])
+    for r in C['routines']:
+        r.update({'hasReplicate': False, 'replicate': False, 'hasLib': False, 'lib': 'liba'})
+    for pr, flag in ((a, first_replicated), (b, not first_replicated)):
+        e = next((r for r in C['routines'] if r['key'] == pr['name']), None)
+        if e is None:
+            e = L.routine_entry(pr['name'])
+            e.update({'hasLib': False, 'lib': 'liba'})
+            C['routines'].append(e)
+        e['hasReplicate'], e['replicate'] = True, flag
+        if not C['lib']:
+            e['hasLib'], e['lib'] = True, 'liba'
+    return C
+
+
 def extras(C):
     default = {'replicate': C['replicate']}
+    if C.get('lib'):
+        default['lib'] = C['lib']
     routines = {}
     for r in C['routines']:
         e = {}
@@ -153,7 +185,7 @@ def case_sig(case):
     C = case['C']
     repl = 'mixed' if any(r['hasReplicate'] for r in C['routines']) else ('all' if C['replicate'] else 'none')
     return (f"pipe={C23.pipe_sig(case['pipe'])}:mvi={int(case['fw']['mvi'])}:sfx={case['fw']['suffix'] or 'none'}:out={int(case['outdir'])}:"
-            f"root={int(case['rootrel'])}:repl={repl}:lib={int(any(r['hasLib'] for r in C['routines']))}:{C25.project_sig(case['P'], case['pipe'])}")
+            f"root={int(case['rootrel'])}:repl={repl}:lib={int(any(r['hasLib'] for r in C['routines']) or bool(C.get('lib')))}:{C25.project_sig(case['P'], case['pipe'])}")
 
 
 # validation corpus: the plan expectations of the repository tests, fed to TLC as if observed ---------------------------------
@@ -243,6 +275,17 @@ def run(ctx):
             if C is None:
                 continue
             unq = any(not im['only'] for h in P['procs'] + P['mods'] for im in h['imports'])
+            # two items of one file with different replicate flags (both orders), a library configured
+            for first in ((i % 2 == 0,) if quick else (True, False)):
+                Cm = mixed_replicate_config(ctx.rng, P, first)
+                if Cm is not None:
+                    ks = C23.callees(P)
+                    pipe = ctx.rng.choice([[], [], [L.op_record('rm', ctx.rng.choice(ks))], [L.op_record('dup', ctx.rng.choice(ks), '_d')]])
+                    case = make_case(ctx.rng, P, Cm, pipe)
+                    case['origin'] = origin + ':mixed-replicate'
+                    runs.append((case, run_case(case, os.path.join(ctx.work, f'c{len(runs)}'))))
+                    if not os.environ.get('VERIF_KEEP'):
+                        shutil.rmtree(os.path.join(ctx.work, f'c{len(runs) - 1}'), ignore_errors=True)
             for pipe in pipelines(ctx.rng, P, 2 if quick else 3):
                 if unq and any(o['op'] in ('dep', 'wrap') for o in pipe):
                     continue    # USE without ONLY is not re-pointed by DependencyTransformation (documented TODO in rename_imports)
@@ -276,6 +319,8 @@ def run(ctx):
             feats['suffix'] += bool(case['fw']['suffix'])
             feats['replicate'] += case['C']['replicate'] or any(r['hasReplicate'] for r in case['C']['routines'])
             feats['lib'] += any(r['hasLib'] for r in case['C']['routines'])
+            feats['default_lib'] += bool(case['C'].get('lib'))
+            feats['mixed_replicate_in_one_file'] += case['origin'].endswith(':mixed-replicate')
             feats['per_lib_lists'] += bool(t['plan']['libs'])
             feats['files_written'] += nwritten
         if ok:
